@@ -181,6 +181,15 @@ def concrete_run(rec):
         c1 = {n: float(w.get_cost(n)) for n in cost_names(method)}
         if any(abs(c0[n] - c1[n]) > 1e-5 * max(1, abs(c0[n])) for n in c0):
             return f'cost: {c0} -> {c1}'
+        for nme in cost_names(method):
+            tw, _ = build(method, spec, rec['full'], rec['training'], rec.get('wseed', 0))
+            _set_nas(method, tw, rec['nas'])
+            torch.manual_seed(0)
+            if method != 'PIT':
+                tw(x)
+            ct = float(tw.get_cost(nme))
+            if abs(ct - c1[nme]) > 1e-5 * max(1, abs(ct)):
+                return f'cost: {nme} = {c1[nme]} but an untouched twin in the same state gives {ct}'
         if str(w.summary()) != sm0:
             return 'summary: changed'
         if y0 is not None:
@@ -230,6 +239,8 @@ def run_instance(p):
 
 def _run_seq(res, method, spec, full, training, wseed, seq, selftest):
     w, shape = build(method, spec, full, training, wseed)
+    # pristine twins, one per metric, that never see any other call: "exactly as if they had not been called"
+    twins = {nme: build(method, spec, full, training, wseed)[0] for nme in cost_names(method)}
 
     def fn(ex):
         pairs, sy = _nas_syms(method, w, ex)
@@ -258,6 +269,23 @@ def _run_seq(res, method, spec, full, training, wseed, seq, selftest):
                 s1 = static_snapshot(w)
                 t1 = tensor_snapshot(w)
                 c1, sm1, y1 = (observe(method, w, shape, x, training) if err is None else (None, None, None))
+                ctwin = {}
+                if err is None:
+                    for nme, tw in twins.items():
+                        tp, _ = _nas_syms(method, tw, ex)
+                        tctx = mpslib.saved_thetas(tw) if method == 'MPS' else contextlib_null()
+                        with swapped_params(tp), tctx:
+                            try:
+                                if method == 'MPS' and training:
+                                    for q in tctx.qs:
+                                        q.sample_alpha()
+                                elif method != 'PIT':
+                                    tw(torch.zeros((1,) + tuple(shape)))
+                                ctwin[nme] = st.scalar_of(tw.get_cost(nme))
+                            finally:
+                                if method == 'SuperNet':
+                                    for _, c in snlib.combiners(tw):
+                                        c.theta_alpha = torch.ones(c.n_branches) / c.n_branches
                 yexp = None
                 if len(exps) == 2 and not training:
                     yexp = (exps[0].eval()(x), exps[1].eval()(x))
@@ -265,10 +293,10 @@ def _run_seq(res, method, spec, full, training, wseed, seq, selftest):
                 if method == 'SuperNet':
                     for _, c in snlib.combiners(w):
                         c.theta_alpha = torch.ones(c.n_branches) / c.n_branches
-        return sy, x, (s0, t0, c0, sm0, y0), (s1, t1, c1, sm1, y1), err, yexp
+        return sy, x, (s0, t0, c0, sm0, y0), (s1, t1, c1, sm1, y1), err, (yexp, ctwin if err is None else {})
     ex = Explorer(timeout_ms=Q)
     n = 0
-    for pc, (sy, x, S0, S1, err, yexp) in ex.explore(fn):
+    for pc, (sy, x, S0, S1, err, (yexp, ctwin)) in ex.explore(fn):
         n += 1
         problems = []
         (s0, t0, c0, sm0, y0), (s1, t1, c1, sm1, y1) = S0, S1
@@ -294,6 +322,13 @@ def _run_seq(res, method, spec, full, training, wseed, seq, selftest):
                     r, m = ex.must(bad) if bad is not True else ('sat', None)
                     if r == 'sat':
                         problems.append(('cost', f'{nme} cost changed', bad if bad is not True else None))
+                        break
+            for nme, ct in ctwin.items():
+                bad = st.e_ne(c1[nme], ct)
+                if bad is not False:
+                    r, m = ex.must(bad) if bad is not True else ('sat', None)
+                    if r == 'sat':
+                        problems.append(('cost', f'{nme} cost differs from the cost of an untouched twin in the same state', bad if bad is not True else None))
                         break
             if sm0 != sm1:
                 problems.append(('summary', f'summary changed: {sm0} -> {sm1}'[:300], None))
